@@ -16,8 +16,7 @@ pub open spec fn cmd_wf(c: Command) -> bool {
 }
 
 impl MainState {
-    // ASSUMED (handlers not under contract): they keep the connection invariant. PONG only notifies the pong timer; TIME, HELP,
-    // WHOWAS only read; WHOIS only reads (its per-nickname body is proved in unit whois).
+    // ASSUMED (handlers not under contract): they keep the connection invariant. PONG only notifies the pong timer; TIME, HELP only read; WHOIS only reads (its per-nickname body is proved in unit whois).
     #[verifier::external_body]
     pub async fn process_pong<'a>(&self, state: &mut VolatileState, conn_state: &mut ConnState, token: &'a str) -> (r: Result<(), HErr>)
         requires conn_inv(*old(conn_state), *old(state)), ensures conn_inv(*final(conn_state), *final(state)), final(conn_state).user_state.authenticated == old(conn_state).user_state.authenticated,
@@ -32,10 +31,6 @@ impl MainState {
     { unimplemented!() }
     #[verifier::external_body]
     pub async fn process_whois<'a>(&self, state: &mut VolatileState, conn_state: &mut ConnState, target: Option<&'a str>, nickmasks: Vec<&'a str>) -> (r: Result<(), HErr>)
-        requires conn_inv(*old(conn_state), *old(state)), ensures conn_inv(*final(conn_state), *final(state)), final(conn_state).user_state.authenticated == old(conn_state).user_state.authenticated,
-    { unimplemented!() }
-    #[verifier::external_body]
-    pub async fn process_whowas<'a>(&self, state: &mut VolatileState, conn_state: &mut ConnState, nickname: &'a str, count: Option<usize>, server: Option<&'a str>) -> (r: Result<(), HErr>)
         requires conn_inv(*old(conn_state), *old(state)), ensures conn_inv(*final(conn_state), *final(state)), final(conn_state).user_state.authenticated == old(conn_state).user_state.authenticated,
     { unimplemented!() }
 
@@ -72,7 +67,6 @@ impl MainState {
 //@callargs process_time state
 //@callargs process_help state
 //@callargs process_whois state
-//@callargs process_whowas state
 //@head
     pub async fn step_command<'a>(&self, state: &mut VolatileState, conn_state: &mut ConnState, cmd: Command<'a>, msg: Message<'a>,
             Tracked(outbox): Tracked<&mut Outbox>, Tracked(sig): Tracked<&mut Signals>) -> (r: Result<(), HErr>)
